@@ -41,15 +41,35 @@ def check_batch(sources: dict[str, str], extra_options: dict | None = None) -> d
             msgs.setdefault(os.path.basename(mod), []).append(line)
 
     bs = [BuildSource(f"{m}.py", m, s) for m, s in sources.items()]
+    # Every type the checker stores for a node, not only the last one: a `finally` body is checked twice (all abnormal
+    # exits, then fall-through only) and the exported map keeps the second, narrower pass.  Observed from outside by
+    # wrapping TypeChecker.store_type(s) for the duration of the build (no change to /repo).
+    import mypy.checker as _chk
+    stored: dict[object, list] = {}
+    orig_store, orig_stores = _chk.TypeChecker.store_type, _chk.TypeChecker.store_types
+
+    def store_type(self, node, typ):
+        stored.setdefault(node, []).append(typ)
+        return orig_store(self, node, typ)
+
+    def store_types(self, d):
+        for node, typ in d.items():
+            stored.setdefault(node, []).append(typ)
+        return orig_stores(self, d)
+
+    _chk.TypeChecker.store_type, _chk.TypeChecker.store_types = store_type, store_types
     try:
         res = build.build(bs, o, flush_errors=flush, fscache=FileSystemCache())
     except Exception as e:   # CompileError (syntax) or an internal error: the caller decides
-        return {m: {"crash": f"{type(e).__name__}: {e}", "errors": [str(e)], "probes": {}, "dead": []} for m in sources}
+        return {m: {"crash": f"{type(e).__name__}: {e}", "errors": [str(e)], "probes": {}, "probes_all": {}, "dead": []} for m in sources}
+    finally:
+        _chk.TypeChecker.store_type, _chk.TypeChecker.store_types = orig_store, orig_stores
 
     out: dict[str, dict] = {}
     for m in sources:
         errs = [l for l in msgs.get(m, []) if ": error:" in l]
         probes: dict[int, object] = {}
+        probes_all: dict[int, list] = {}
         dead: set[int] = set()
         st = res.graph.get(m)
         tree = st.tree if st else None
@@ -61,7 +81,33 @@ def check_batch(sources: dict[str, str], extra_options: dict | None = None) -> d
                         t = res.types.get(e.args[1])
                         if isinstance(k, int) and t is not None:
                             probes[k] = t
+                            probes_all[k] = stored.get(e.args[1], []) + [t]
                     super().visit_call_expr(e)
+
+                # statements of a checked function body whose expression never received a type: the checker
+                # skipped them as unreachable (binder), which `Block.is_unreachable` does not record
+                depth = 0
+
+                def visit_func_def(self, d) -> None:
+                    self.depth += 1
+                    super().visit_func_def(d)
+                    self.depth -= 1
+
+                def _seen(self, stmt, expr) -> None:
+                    if self.depth and expr is not None and expr not in stored and expr not in res.types:
+                        dead.add(stmt.line)
+
+                def visit_expression_stmt(self, st) -> None:
+                    self._seen(st, st.expr)
+                    super().visit_expression_stmt(st)
+
+                def visit_assignment_stmt(self, st) -> None:
+                    self._seen(st, st.rvalue)
+                    super().visit_assignment_stmt(st)
+
+                def visit_return_stmt(self, st) -> None:
+                    self._seen(st, st.expr)
+                    super().visit_return_stmt(st)
 
                 def visit_block(self, b) -> None:
                     if b.is_unreachable:
@@ -71,7 +117,7 @@ def check_batch(sources: dict[str, str], extra_options: dict | None = None) -> d
                         return
                     super().visit_block(b)
             tree.accept(V())
-        out[m] = {"errors": errs, "probes": probes, "dead": sorted(dead)}
+        out[m] = {"errors": errs, "probes": probes, "probes_all": probes_all, "dead": sorted(dead)}
     return out
 
 
